@@ -64,13 +64,19 @@ func C11URIMoves(what string, buf []byte, f sipsp.PField, moves []int) (res stri
 		before := u
 		okm := u.AdjustOffs(sipsp.PField{Offs: sipsp.OffsT(np), Len: sipsp.OffsT(span)})
 		if span < len(txt) {
-			if okm {
-				return fmt.Sprintf("%s URI %q (%d bytes): relocation into a span of %d bytes was accepted", what, txt, len(txt), span)
+			// shorter than the text: must be refused when even the last non-empty component does not
+			// fit; for a span that only cuts off trailing delimiters / empty components either answer
+			// is acceptable, but a refusal must leave the structure untouched and an acceptance must
+			// keep every component inside the span
+			if okm && span < int(before.Long().Len) {
+				return fmt.Sprintf("%s URI %q (long form %d bytes): relocation into a span of %d bytes was accepted", what, txt, before.Long().Len, span)
 			}
-			if u != before {
-				return fmt.Sprintf("%s URI %q: refused relocation modified the structure", what, txt)
+			if !okm {
+				if u != before {
+					return fmt.Sprintf("%s URI %q: refused relocation modified the structure", what, txt)
+				}
+				return ""
 			}
-			return ""
 		}
 		if !okm {
 			return fmt.Sprintf("%s URI %q (%d bytes): relocation from %d to %d (span %d) refused", what, txt, len(txt), pos, np, span)
